@@ -280,6 +280,9 @@ class FnExec:
             if op == "Add": return Val(t, az + bz)
             if op == "Sub": return Val(t, az - bz)
             opaque = getattr(self.spec, "opaque_arith", False) and real and not (z3.is_rational_value(z3.simplify(az)) or z3.is_rational_value(z3.simplify(bz)))
+            if op == "Mult" and not real and getattr(self.spec, "opaque_arith", False) == "all" and not (z3.is_int_value(z3.simplify(az)) or z3.is_int_value(z3.simplify(bz))):
+                # opaque_arith="all": a product of two non-constant integers (an offset p * size) is an uninterpreted function of its factors on both sides
+                return Val(INT, z3.Function("int_mul", z3.IntSort(), z3.IntSort(), z3.IntSort())(az, bz))
             if op == "Mult":
                 # opaque_arith: products / quotients of two non-constant reals become uninterpreted functions (code and contract are translated alike, so
                 # only congruence is used); this keeps nonlinear arithmetic out of queries whose proof is pure bookkeeping.  Sound: fewer facts.
@@ -442,12 +445,14 @@ class FnExec:
                 if isinstance(a.t, SetT): return a
             if nm == "range" and len(n.args) == 3:
                 lo, hi, stp = [self.expr(x, st, pc).z for x in n.args]
-                self.branch_exc(pc, stp == 0, "ValueError", n)
-                LI = ListT(INT); RF = z3.Function("py_range3", z3.IntSort(), z3.IntSort(), z3.IntSort(), LI.sort())
-                if "py_range3" not in self.th.funcs:      # range(lo, hi, step): the q-th element is lo + q*step; its length is left as an opaque non-negative function of the three bounds
-                    self.th.funcs["py_range3"] = RF; l_, h_, s_, q_ = z3.Ints("r3l_ r3h_ r3s_ r3q_")
+                if self.mode != "spec": self.branch_exc(pc, stp == 0, "ValueError", n)
+                opq = getattr(self.spec, "opaque_arith", False) == "all"; rname = "py_range3_opaque" if opq else "py_range3"
+                LI = ListT(INT); RF = z3.Function(rname, z3.IntSort(), z3.IntSort(), z3.IntSort(), LI.sort())
+                if rname not in self.th.funcs:      # range(lo, hi, step): the q-th element is lo + q*step; its length is left as an opaque non-negative function of the three bounds
+                    self.th.funcs[rname] = RF; l_, h_, s_, q_ = z3.Ints("r3l_ r3h_ r3s_ r3q_")
+                    prod = z3.Function("int_mul", z3.IntSort(), z3.IntSort(), z3.IntSort())(q_, s_) if opq else q_ * s_
                     self.th.axioms.append(z3.ForAll([l_, h_, s_], LI.len(RF(l_, h_, s_)) >= 0, patterns=[RF(l_, h_, s_)]))
-                    self.th.axioms.append(z3.ForAll([l_, h_, s_, q_], LI.at(RF(l_, h_, s_), q_) == l_ + q_ * s_, patterns=[LI.at(RF(l_, h_, s_), q_)]))
+                    self.th.axioms.append(z3.ForAll([l_, h_, s_, q_], LI.at(RF(l_, h_, s_), q_) == l_ + prod, patterns=[LI.at(RF(l_, h_, s_), q_)]))
                 self.assumptions.add("range(lo, hi, step): element q is lo + q*step; len(range(lo, hi, step)) is used as an opaque non-negative function of its arguments")
                 return Val(LI, RF(lo, hi, stp))
             if nm == "range" and len(n.args) in (1, 2):
